@@ -127,6 +127,10 @@ pub struct Rec {
 }
 
 impl Rec {
+    /// a recorder that is not part of a run (fuzz targets, tools)
+    pub fn scratch(prop: &'static str) -> Rec {
+        Rec::new(Ctx { prop, tier: Tier::Quick, seed: 0, shard: 0, nshards: 1 }, alloc_shm())
+    }
     fn new(ctx: Ctx, shm: *mut u8) -> Rec {
         let known_sigs = known_findings(ctx.prop).into_iter().map(|f| f.sig).collect();
         Rec { ctx, res: ShardResult::default(), nt_set: HashSet::new(), samples_seen: 0, shm, known_sigs }
@@ -782,4 +786,20 @@ pub fn unhex(s: &str) -> Vec<u8> {
         i += 2;
     }
     out
+}
+
+/// Used by the coverage-guided fuzz targets (harness/fuzz): save the failing
+/// case as an ordinary replay file, print the VIOLATION line, then abort the
+/// fuzzing process so that libFuzzer keeps its own artifact as well.
+pub fn fuzz_violation(prop: &str, sig: &str, case: Value, detail: &str) -> ! {
+    if known_findings(prop).iter().any(|f| f.sig == sig) {
+        // listed finding: never reported from here (the deterministic tier prints the KNOWN-FINDING line)
+        std::process::exit(0);
+    }
+    let v = Violation { sig: format!("fuzz-{}", sig), case, detail: detail.to_string(), count: 1 };
+    let path = write_replay(prop, &v);
+    println!("VIOLATION property={} replay={}", prop, path);
+    eprintln!("  [{}] {}", v.sig, v.detail);
+    let _ = std::io::stdout().flush();
+    std::process::abort();
 }
